@@ -23,6 +23,7 @@ from .filter import NIL
 from .filter import TRUE
 from .filter import UNDEFINED_LITERAL
 from .filter import BooleanExpression
+from .filter import CurrentKey
 from .filter import FilterContextPath
 from .filter import FilterExpression
 from .filter import FloatLiteral
@@ -595,6 +596,9 @@ class Parser:
         )
 
     def parse_current_key(self, _: TokenStream) -> FilterExpression:
+        if self.env.key_token != CURRENT_KEY.token:
+            # So the expression's string form uses the environment's token.
+            return CurrentKey(self.env.key_token)
         return CURRENT_KEY
 
     def parse_filter_context_path(self, stream: TokenStream) -> FilterExpression:
